@@ -19,7 +19,7 @@ import random
 
 from simkit.harness import History, LoopConfig, SimRun, anyio
 
-from anyio import CancelScope, Condition, Event, create_task_group, get_cancelled_exc_class, sleep
+from anyio import CancelScope, Condition, Event, WouldBlock, create_task_group, get_cancelled_exc_class, sleep
 from anyio.lowlevel import checkpoint
 
 DUR = [0, 0, 0.125, 0.125, 0.25, 0.5]
@@ -242,6 +242,10 @@ def gen_case(seed, tier, prop="C11"):
             else:
                 prog.append([rng.choice(["bad_notify", "bad_wait", "bad_notify_all"])])
         tasks.append(prog)
+    for prog in tasks:
+        for st in prog:
+            if st[0] == "with" and rng.random() < 0.12:
+                st[0] = "try_with"
     ext = []
     native = rng.random() < 0.3      # this case also cancels whole tasks natively (asyncio Task.cancel())
     for _ in range(rng.randint(0, 5)):
@@ -448,6 +452,8 @@ class CondRun:
                     await self.do_bad(tid, op)
                 elif op == "with":
                     await self.do_with(tid, st[1])
+                elif op == "try_with":
+                    await self.do_try_with(tid, st[1])
         except asyncio.CancelledError:
             if tid not in self.ncancelled:       # a native cancellation ends this task only (see engines/permits.py)
                 raise
@@ -466,6 +472,27 @@ class CondRun:
             return
         async with cond:
             await self.critical(tid, inner)
+
+    async def do_try_with(self, tid, inner):
+        """The critical section entered through acquire_nowait(): either it is refused with WouldBlock - and then nothing
+        about the condition may have changed, in particular not who owns it - or the section runs as usual."""
+        cond = self.cond
+        self.observe("before acquire_nowait")
+        holder = self.holder
+        try:
+            cond.acquire_nowait()
+        except WouldBlock:
+            self.h.rec("acquire_nowait_refused", tid)
+            self.bump("acquire_nowait_wouldblock")
+            self.faults["acquire_nowait_refused_while_held" if holder is not None else "acquire_nowait_refused"] += 1
+            self.observe("after refused acquire_nowait")
+            return
+        if holder is not None:
+            self.v("lock", f"acquire_nowait() by task {tid} succeeded while task {holder} is inside its critical section")
+        try:
+            await self.critical(tid, inner)
+        finally:
+            cond.release()
 
     async def critical(self, tid, inner):
         cond = self.cond
